@@ -238,6 +238,11 @@ class _StubStack:
         self.active = []
         self.ok = True
 
+    @property
+    def top(self):
+        # code that asks for the current depth indicator (as the real TraceStack exposes it): -1 outside any trace
+        return max(self.active) if self.active else -1
+
     @contextmanager
     def new_trace(self):
         t = self.ids.pop(0) if self.ids else (max(self.active) + 1 if self.active else 0)
